@@ -1,6 +1,7 @@
 // C30 — rate limiting: the retry-after / no-panic half (appended to varpulis-cluster/src/rate_limit.rs)
-// NOT decided here: the admission bound (burst + rate*T) — it rests on `elapsed * rate` over symbolic f64s, which is
-// outside CBMC's practical reach and outside Verus (no float support).
+// The admission bound (burst + rate*T) is decided only through its inductive step: refill / try_consume at CONCRETE rates (1 and 50/s;
+// `elapsed * rate` over two symbolic f64s is outside CBMC's practical reach, and Verus has no float support) and a native bounded
+// enumeration of RateLimiter::check at rate 0.
 
 #[cfg(kani)] pub fn stub_now() -> Instant { unsafe { std::mem::transmute::<(i64, u32), Instant>((1, 0)) } }
 pub fn an_instant() -> Instant {
@@ -55,4 +56,73 @@ vpv_cell!(c30_reset_after_rate50, "C30/TokenBucket::reset_after/rate = 50 (concr
     if !inv(&b) || tokens >= 1.0 { return true; }
     b.reset_after() <= Duration::from_secs(1) });
 
-vpv_replay_table!(c30_new, c30_config_new, c30_remaining, c30_reset_after_rate0, c30_reset_after_full, c30_reset_after_positive_rate, c30_reset_after_rate1, c30_reset_after_rate50);
+
+// ---- refill: the step every admission decision rests on.  `elapsed * rate` over two symbolic f64s is outside CBMC's reach (measured), so the
+// rate is concrete per cell (1 and 50 tokens/s) and everything else is symbolic: bucket state, burst, elapsed time (secs, nanos).
+// Contract: refill moves the reference time to `now`, keeps 0 <= tokens <= max_tokens, never removes tokens, and credits at most elapsed * rate.
+#[cfg(kani)] pub fn stub_now_late() -> Instant { unsafe { std::mem::transmute::<(i64, u32), Instant>((1_000_000, 0)) } }
+pub fn now_for_refill() -> Instant {
+    #[cfg(kani)] { stub_now_late() }
+    #[cfg(not(kani))] { Instant::now() }
+}
+/// under Kani the clock is exact; natively `Instant::now()` inside refill is a little later than the one taken before the call
+pub fn slack_secs() -> f64 { if cfg!(kani) { 0.0 } else { 1.0 } }
+pub fn refill_step(burst: u32, rate: u32, tokens: f64, back_secs: u32, back_nanos: u32) -> bool {
+    if back_nanos >= 1_000_000_000 || back_secs > 900_000 { return true; }
+    let before = now_for_refill();
+    let back = Duration::new(back_secs as u64, back_nanos);
+    let last = match before.checked_sub(back) { Some(t) => t, None => return true };
+    let mut b = TokenBucket { tokens, last_update: last, max_tokens: burst as f64, refill_rate: rate as f64 };
+    if !inv(&b) { return true; }
+    b.refill();
+    let elapsed = back_secs as f64 + back_nanos as f64 / 1e9;
+    let credit_max = (elapsed + slack_secs()) * rate as f64;
+    b.last_update >= before && inv(&b) && b.tokens >= tokens && b.tokens <= tokens + credit_max
+        && (b.tokens == burst as f64 || b.tokens >= tokens + elapsed * rate as f64 - 1e-9)
+}
+vpv_cell!(#[kani::stub(std::time::Instant::now, stub_now_late)] c30_refill_rate1, "C30/TokenBucket::refill/rate = 1 (concrete): reference time moves to now, 0 <= tokens <= burst, credit == min(burst - tokens, elapsed * rate)", (burst: u32, tokens: f64, back_secs: u32, back_nanos: u32), {
+    refill_step(burst, 1, tokens, back_secs, back_nanos) });
+vpv_cell!(#[kani::stub(std::time::Instant::now, stub_now_late)] c30_refill_rate50, "C30/TokenBucket::refill/rate = 50 (concrete): reference time moves to now, 0 <= tokens <= burst, credit == min(burst - tokens, elapsed * rate)", (burst: u32, tokens: f64, back_secs: u32, back_nanos: u32), {
+    refill_step(burst, 50, tokens, back_secs, back_nanos) });
+vpv_cell!(#[kani::stub(std::time::Instant::now, stub_now_late)] c30_try_consume_rate50, "C30/TokenBucket::try_consume/rate = 50 (concrete): admits iff a whole token is available after refill and then removes exactly one", (burst: u32, tokens: f64, back_secs: u32, back_nanos: u32), {
+    if back_nanos >= 1_000_000_000 || back_secs > 900_000 { return true; }
+    let before = now_for_refill();
+    let last = match before.checked_sub(Duration::new(back_secs as u64, back_nanos)) { Some(t) => t, None => return true };
+    let mut b = TokenBucket { tokens, last_update: last, max_tokens: burst as f64, refill_rate: 50.0 };
+    if !inv(&b) { return true; }
+    let mut r = TokenBucket { tokens, last_update: last, max_tokens: burst as f64, refill_rate: 50.0 };
+    r.refill();
+    let admitted = b.try_consume();
+    if cfg!(kani) { admitted == (r.tokens >= 1.0) && b.tokens == (if admitted { r.tokens - 1.0 } else { r.tokens }) && inv(&b) }
+    else { inv(&b) && (!admitted || r.tokens + 50.0 >= 1.0) }
+});
+
+// ---- RateLimiter::check (tokio RwLock + HashMap + Instant::now): BOUNDED STAND-IN (native enumeration), rate 0 so that time does not matter.
+// 1..=3 clients, table capacity >= number of clients (so no client may ever be evicted), burst 0..=2, every request sequence of length <= 7:
+// each client is admitted exactly min(burst, number of its requests) times — a tracked client never gets a fresh bucket — and every rejection
+// carries a retry-after value (no panic).
+vpv_native!(c30_check_tracked_clients, "C30/RateLimiter::check/a tracked client is admitted at most `burst` times at rate 0 and never loses its bucket (native enumeration: <= 3 clients, capacity >= clients, burst 0..=2, sequences <= 7)", {
+    let rt = tokio::runtime::Builder::new_current_thread().enable_all().build().unwrap();
+    let ips: [IpAddr; 3] = [IpAddr::from([10, 0, 0, 1]), IpAddr::from([10, 0, 0, 2]), IpAddr::from([10, 0, 0, 3])];
+    let mut ok = true; let mut shown = 0;
+    for nclients in 1..=3usize { for cap in nclients..=3usize { for burst in 0..=2u32 { for len in 0..=7usize {
+        let total = nclients.pow(len as u32);
+        for code in 0..total {
+            let mut seq = Vec::new(); let mut c = code; for _ in 0..len { seq.push(c % nclients); c /= nclients; }
+            let good = vpv_enum_try(|| format!("clients={} capacity={} burst={} rate=0 request sequence (client ids)={:?}", nclients, cap, burst, seq), || {
+                let mut cfg = RateLimitConfig::with_burst(0, burst); cfg.max_tracked_ips = cap;
+                let rl = RateLimiter::new(cfg);
+                let mut admitted = [0u32; 3]; let mut asked = [0u32; 3];
+                for &who in &seq {
+                    let t0 = Instant::now(); while Instant::now() == t0 {}
+                    asked[who] += 1;
+                    match rt.block_on(rl.check(ips[who])) { RateLimitResult::Allowed { .. } => admitted[who] += 1, RateLimitResult::Limited { retry_after } => { let _ = retry_after.as_secs(); } }
+                }
+                (0..nclients).all(|i| admitted[i] == asked[i].min(burst))
+            });
+            if !good { ok = false; shown += 1; if shown >= 3 { return false; } }
+        }
+    } } } }
+    ok
+});
+vpv_replay_table!(c30_new, c30_config_new, c30_remaining, c30_reset_after_rate0, c30_reset_after_full, c30_reset_after_positive_rate, c30_reset_after_rate1, c30_reset_after_rate50, c30_refill_rate1, c30_refill_rate50, c30_try_consume_rate50, c30_check_tracked_clients);
